@@ -317,18 +317,22 @@ func encodeValue(v interface{}) interface{} {
 		return map[string]interface{}{"k": "l", "a": a}
 	case map[string]interface{}:
 		d := map[string]interface{}{}
+		kc := map[string]interface{}{}
 		for k, e := range x {
 			key := ""
+			cs := []string{}
 			for _, r := range k {
+				c := string(r)
 				if e, ok := escEncode[r]; ok {
-					key += e
-				} else {
-					key += string(r)
+					c = e
 				}
+				key += c
+				cs = append(cs, c)
 			}
 			d[key] = encodeValue(e)
+			kc[key] = cs
 		}
-		return map[string]interface{}{"k": "o", "d": d}
+		return map[string]interface{}{"k": "o", "d": d, "kc": kc}
 	}
 	return map[string]interface{}{"k": "?", "v": fmt.Sprint(v)}
 }
